@@ -2,6 +2,7 @@
   C18 — core document properties round-trip and stay valid.  Model: `Model/CoreProps.lean`.
 -/
 import PptxModel.Model.CoreProps
+import Mathlib.Tactic.IntervalCases
 namespace Pptx.C18
 open Pptx Pptx.CoreProps
 
@@ -66,11 +67,9 @@ theorem unpadded_year_not_read_back :
     readW3C (fmtUnpaddedYear ⟨999, 1, 2, 3, 4, 5⟩) = .unparseable
       ∧ readW3C (fmt ⟨999, 1, 2, 3, 4, 5⟩) = .ok ⟨999, 1, 2, 3, 4, 5⟩ := by decide
 
-/-- **Offsets are read as the equivalent UTC time** — checked instances at the extremes of the
-    W3CDTF offset range and across month/year/leap-day boundaries (kernel evaluation; the general
-    statement needs the inverse law of the civil-date conversion, which is not proved here:
-    `_partial`, the conversion itself is compared with `datetime` arithmetic by the correspondence). -/
-theorem offset_utc_instances_partial :
+/-- offsets are read as the equivalent UTC time — instances at the extremes of the W3CDTF offset range and across
+    month / year / leap-day boundaries, by kernel evaluation (the general statement is `offset_utc` below) -/
+theorem offset_utc_instances :
     readW3C "2003-12-31T23:14:55-08:00".toList = .ok ⟨2004, 1, 1, 7, 14, 55⟩
     ∧ readW3C "2004-03-01T00:30:00+14:00".toList = .ok ⟨2004, 2, 29, 10, 30, 0⟩
     ∧ readW3C "2004-02-28T20:00:00-14:00".toList = .ok ⟨2004, 2, 29, 10, 0, 0⟩
@@ -78,6 +77,113 @@ theorem offset_utc_instances_partial :
     ∧ readW3C "2003-12-31T10:14:55Z".toList = .ok ⟨2003, 12, 31, 10, 14, 55⟩
     ∧ readW3C "2003-12".toList = .ok ⟨2003, 12, 1, 0, 0, 0⟩
     ∧ readW3C "0001-01-01T00:00:00+14:00".toList = .overflow := by decide
+
+theorem era_year (doe yoe : Int) (h0 : 0 ≤ doe) (h1 : doe < 146097)
+    (hyoe : yoe = (doe - doe / 1460 + doe / 36524 - doe / 146096) / 365) :
+    0 ≤ yoe ∧ yoe ≤ 399 ∧ 0 ≤ doe - (365 * yoe + yoe / 4 - yoe / 100) ∧ doe - (365 * yoe + yoe / 4 - yoe / 100) ≤ 365 := by
+  obtain ⟨f, hf⟩ : ∃ f, f = doe / 36524 := ⟨_, rfl⟩
+  obtain ⟨g, hg⟩ : ∃ g, g = doe / 146096 := ⟨_, rfl⟩
+  obtain ⟨c, hc⟩ : ∃ c, c = yoe / 100 := ⟨_, rfl⟩
+  rw [← hf, ← hg] at hyoe
+  rw [← hc]
+  have hf0 : 0 ≤ f := by omega
+  have hf4 : f ≤ 4 := by omega
+  have hg0 : 0 ≤ g := by omega
+  have hg1 : g ≤ 1 := by omega
+  have hc0 : 0 ≤ c := by omega
+  have hc4 : c ≤ 4 := by omega
+  interval_cases f <;> interval_cases g <;> interval_cases c <;> omega
+
+theorem era_month (doy mp d m : Int) (h0 : 0 ≤ doy) (h1 : doy ≤ 365)
+    (hmp : mp = (5 * doy + 2) / 153) (hd : d = doy - (153 * mp + 2) / 5 + 1)
+    (hm : m = if mp < 10 then mp + 3 else mp - 9) :
+    1 ≤ m ∧ m ≤ 12 ∧ 1 ≤ d ∧ d ≤ 31 ∧ (153 * (if m > 2 then m - 3 else m + 9) + 2) / 5 + d - 1 = doy := by
+  have hmp0 : 0 ≤ mp := by omega
+  have hmp11 : mp ≤ 11 := by omega
+  interval_cases mp <;> simp at hm <;> subst hm <;> simp <;> omega
+
+/-- **The civil-date conversion is exact** (Hinnant's algorithm, which `datetime` arithmetic is modelled by): the day
+    number of the date computed for day number `z` is `z`, for EVERY integer `z` (proleptic Gregorian calendar), and
+    the date has a month in 1..12 and a day in 1..31 -/
+theorem civil_roundtrip (z : Int) :
+    daysFromCivil (civilFromDays z).1 (civilFromDays z).2.1 (civilFromDays z).2.2 = z ∧
+    1 ≤ (civilFromDays z).2.1 ∧ (civilFromDays z).2.1 ≤ 12 ∧ 1 ≤ (civilFromDays z).2.2 ∧ (civilFromDays z).2.2 ≤ 31 := by
+  obtain ⟨era, hera⟩ : ∃ era, era = (z + 719468) / 146097 := ⟨_, rfl⟩
+  obtain ⟨doe, hdoe⟩ : ∃ doe, doe = z + 719468 - era * 146097 := ⟨_, rfl⟩
+  obtain ⟨yoe, hyoe⟩ : ∃ yoe, yoe = (doe - doe / 1460 + doe / 36524 - doe / 146096) / 365 := ⟨_, rfl⟩
+  obtain ⟨doy, hdoy⟩ : ∃ doy, doy = doe - (365 * yoe + yoe / 4 - yoe / 100) := ⟨_, rfl⟩
+  obtain ⟨mp, hmp⟩ : ∃ mp, mp = (5 * doy + 2) / 153 := ⟨_, rfl⟩
+  obtain ⟨d, hd⟩ : ∃ d, d = doy - (153 * mp + 2) / 5 + 1 := ⟨_, rfl⟩
+  obtain ⟨m, hm⟩ : ∃ m, m = if mp < 10 then mp + 3 else mp - 9 := ⟨_, rfl⟩
+  have hc : civilFromDays z = (if m ≤ 2 then yoe + era * 400 + 1 else yoe + era * 400, m, d) := by
+    subst hm hd hmp hdoy hyoe hdoe hera; rfl
+  rw [hc]
+  have hz := Int.emod_add_mul_ediv (z + 719468) 146097
+  have hlt := Int.emod_lt_of_pos (z + 719468) (show (0 : Int) < 146097 by decide)
+  have hge := Int.emod_nonneg (z + 719468) (show (146097 : Int) ≠ 0 by decide)
+  have hdoe0 : 0 ≤ doe ∧ doe < 146097 := by omega
+  obtain ⟨y0, y399, dy0, dy365⟩ := era_year doe yoe hdoe0.1 hdoe0.2 hyoe
+  rw [← hdoy] at dy0 dy365
+  obtain ⟨m1, m12, d1, d31, hback⟩ := era_month doy mp d m dy0 dy365 hmp hd hm
+  refine ⟨?_, m1, m12, d1, d31⟩
+  simp only [daysFromCivil]
+  by_cases hm2 : m ≤ 2
+  · have hm' : ¬ m > 2 := by omega
+    simp only [hm2, if_true, hm', if_false] at hback ⊢
+    have e2 : yoe + era * 400 + 1 - 1 = yoe + era * 400 := by omega
+    rw [e2]
+    have e1 : (yoe + era * 400) / 400 = era := by omega
+    rw [e1]
+    have e3 : yoe + era * 400 - era * 400 = yoe := by omega
+    rw [e3]
+    omega
+  · have hm' : m > 2 := by omega
+    simp only [hm2, if_false, hm', if_true] at hback ⊢
+    have e1 : (yoe + era * 400) / 400 = era := by omega
+    rw [e1]
+    have e3 : yoe + era * 400 - era * 400 = yoe := by omega
+    rw [e3]
+    omega
+
+
+/-- what `fromSecs` returns is the instant it was given, as a calendar date and time of day -/
+theorem fromSecs_spec (x : Int) (u : DT) (h : fromSecs x = some u) :
+    toSecs u = x ∧ 1 ≤ u.y ∧ u.y ≤ 9999 ∧ 1 ≤ u.mo ∧ u.mo ≤ 12 ∧ 1 ≤ u.d ∧ u.d ≤ 31 ∧ u.h < 24 ∧ u.mi < 60 ∧ u.s < 60 := by
+  obtain ⟨hrt, m1, m12, d1, d31⟩ := civil_roundtrip (x / 86400)
+  simp only [fromSecs] at h
+  generalize hy : (civilFromDays (x / 86400)).1 = y at h hrt
+  generalize hm : (civilFromDays (x / 86400)).2.1 = m at h hrt m1 m12
+  generalize hd : (civilFromDays (x / 86400)).2.2 = d at h hrt d1 d31
+  by_cases hr : 1 ≤ y ∧ y ≤ 9999
+  · rw [if_pos hr] at h
+    have hu : u = ⟨y.toNat, m.toNat, d.toNat, (x % 86400 / 3600).toNat, (x % 86400 % 3600 / 60).toNat, (x % 86400 % 60).toNat⟩ := by
+      simpa using h.symm
+    subst hu
+    have r0 := Int.emod_nonneg x (show (86400 : Int) ≠ 0 by decide)
+    have r1 := Int.emod_lt_of_pos x (show (0 : Int) < 86400 by decide)
+    have e := Int.emod_add_mul_ediv x 86400
+    simp only [toSecs]
+    have cy : ((y.toNat : Nat) : Int) = y := Int.toNat_of_nonneg (by omega)
+    have cm : ((m.toNat : Nat) : Int) = m := Int.toNat_of_nonneg (by omega)
+    have cd : ((d.toNat : Nat) : Int) = d := Int.toNat_of_nonneg (by omega)
+    have ch : (((x % 86400 / 3600).toNat : Nat) : Int) = x % 86400 / 3600 := Int.toNat_of_nonneg (by omega)
+    have cmi : (((x % 86400 % 3600 / 60).toNat : Nat) : Int) = x % 86400 % 3600 / 60 := Int.toNat_of_nonneg (by omega)
+    have cs : (((x % 86400 % 60).toNat : Nat) : Int) = x % 86400 % 60 := Int.toNat_of_nonneg (by omega)
+    rw [cy, cm, cd, ch, cmi, cs, hrt]
+    refine ⟨by omega, ?_, ?_, ?_, ?_, ?_, ?_, ?_, ?_, ?_⟩ <;> omega
+  · rw [if_neg hr] at h; cases h
+
+/-- **Offsets are read as the equivalent UTC time, for every timestamp and every offset**: when the first 19 characters
+    parse to `t` and the 6-character remainder to an offset of `delta` seconds, the value read denotes exactly the
+    instant `t + delta`, with every field in range; the only other outcome is the overflow of `datetime`'s year range -/
+theorem offset_utc (s : Str) (t : DT) (delta : Int)
+    (ht : parseCanon (s.take 19) = some t) (hlen : (s.drop 19).length = 6) (ho : parseOffset (s.drop 19) = some delta) :
+    (∃ u, readW3C s = .ok u ∧ toSecs u = toSecs t + delta ∧ 1 ≤ u.y ∧ u.y ≤ 9999 ∧ 1 ≤ u.mo ∧ u.mo ≤ 12 ∧ 1 ≤ u.d ∧ u.d ≤ 31 ∧
+      u.h < 24 ∧ u.mi < 60 ∧ u.s < 60) ∨ readW3C s = .overflow := by
+  simp only [readW3C, ht, hlen, if_true, ho]
+  cases hf : fromSecs (toSecs t + delta) with
+  | none => right; rfl
+  | some u => left; exact ⟨u, rfl, fromSecs_spec _ u hf⟩
 
 /-- revision: stored text of a positive integer reads back as that integer; anything else as 0 -/
 theorem revision_examples : revisionOf (some "42".toList) = 42 ∧ revisionOf (some "-3".toList) = 0
